@@ -164,6 +164,13 @@ class PathWalker:
     def __init__(self, src, fn):
         self.src, self.fn = src, fn
         self.params = [a.arg for a in fn.args.args if a.arg != "self"]
+        if len(self.params) < 5:
+            raise TranslateError("solveWall: expected (lower, upper, guess, tupleAtLower, "
+                                 "tupleAtUpper)")
+        # roles by POSITION, so that renaming a parameter is harmless
+        self.p_lo, self.p_hi, self.p_glo, self.p_ghi = (self.params[0], self.params[1],
+                                                        self.params[3], self.params[4])
+        self.atol_stores = {}
         self.exits = []      # list of dict(sets=[(setter, [vals])], env, after_root, line)
         self.closures = {}   # name -> (FunctionDef, env snapshot) of the last path that saw it
         self.rootcall = None
@@ -199,23 +206,21 @@ class PathWalker:
             return ("call", f, tuple(self.val(a, st) for a in node.args))
         return ("expr", src_of(node, self.src))
 
-    @staticmethod
-    def site_of_velocity(v):
-        if v == ("param", "wallVelocityMax"):
+    def site_of_velocity(self, v):
+        if v == ("param", self.p_hi):
             return "AtMax"
-        if v == ("param", "wallVelocityMin"):
+        if v == ("param", self.p_lo):
             return "AtMin"
         if v == ("attr", ("rootresult",), "root"):
             return "AtRoot"
         return "Unknown"
 
-    @staticmethod
-    def elem(b, i):
+    def elem(self, b, i):
         if b[0] == "evaltuple":
             return ("evalelem", b[1], b[2], i)
-        if b[0] == "param" and b[1] == "wallPressureResultsMax":
+        if b[0] == "param" and b[1] == self.p_ghi:
             return ("evalelem", "AtMax", 0, i)
-        if b[0] == "param" and b[1] == "wallPressureResultsMin":
+        if b[0] == "param" and b[1] == self.p_glo:
             return ("evalelem", "AtMin", 0, i)
         return ("elem", b, i)
 
@@ -279,6 +284,8 @@ class PathWalker:
             st["env"][s.name] = ("closure", s.name)
             return nxt(st)
         if isinstance(s, ast.Assign):
+            if any(src_of(t, self.src) == "self.pressAbsErrTol" for t in s.targets):
+                self.atol_stores.setdefault(s.lineno, []).append((s, dict(st["env"])))
             v = self.val(s.value, st)
             for t in s.targets:
                 self.assign(t, v, st)
@@ -423,27 +430,44 @@ def solvewall_facts(src):
     if isinstance(br, (ast.List, ast.Tuple)):
         for e in br.elts:
             v = env_at_root.get(e.id) if isinstance(e, ast.Name) else None
-            bracket.append(v[1] if v and v[0] == "param" else "?")
+            bracket.append(w.params.index(v[1]) if v and v[0] == "param" else 99)
     fobj = call.args[0].id if call.args and isinstance(call.args[0], ast.Name) else "?"
-    # velocity error (equilibrium branch): resolve through straight-line definitions
+    # velocity error: the argument of results.setWallVelocities at the exits behind the root
+    # finder, resolved through its definitions (equilibrium branch: a plain expression of
+    # errTol and the root; off-equilibrium branch: max(that, ...))
     defs = {}
     for s in ast.walk(fn):
         if isinstance(s, ast.Assign) and len(s.targets) == 1 and isinstance(s.targets[0], ast.Name):
             defs.setdefault(s.targets[0].id, []).append(s.value)
-    if "wallVelocityError" not in defs or "wallVelocityMinError" not in defs:
-        raise TranslateError("wallVelocityError / wallVelocityMinError not assigned")
-    eq_def = [d for d in defs["wallVelocityError"] if isinstance(d, ast.Name)]
-    if len(eq_def) != 1 or eq_def[0].id != "wallVelocityMinError" or \
-            len(defs["wallVelocityMinError"]) != 1:
-        raise TranslateError("equilibrium branch must set wallVelocityError = "
-                             "wallVelocityMinError")
-    ex_v = Expr(src, {"self.errTol": "errTol", "optimizeResult.root": "root",
-                      "wallVelocity": "root"})
-    velerr = ex_v.num(defs["wallVelocityMinError"][0])
-    # off-equilibrium branch: max(minError, ...) -- check it is bounded below by minError
-    off = [d for d in defs["wallVelocityError"] if not isinstance(d, ast.Name)]
+    errargs = []
+    for n in ast.walk(fn):
+        if isinstance(n, ast.Call) and src_of(n.func, src) == "results.setWallVelocities":
+            a = {k.arg: k.value for k in n.keywords}
+            for i, nm in enumerate(["wallVelocity", "wallVelocityError", "wallVelocityLTE"]):
+                if i < len(n.args):
+                    a[nm] = n.args[i]
+            e = a.get("wallVelocityError")
+            if e is not None and not (isinstance(e, ast.Constant) and e.value is None):
+                errargs.append(e)
+    if len(errargs) != 1 or not isinstance(errargs[0], ast.Name):
+        raise TranslateError("expected one setWallVelocities call with a named velocity error")
+    edefs = defs.get(errargs[0].id, [])
+    eq_def = [d for d in edefs if isinstance(d, ast.Name)]
+    off = [d for d in edefs if not isinstance(d, ast.Name)]
+    if len(eq_def) != 1 or len(defs.get(eq_def[0].id, [])) != 1:
+        raise TranslateError("equilibrium branch must set the velocity error to one named "
+                             "minimum error")
+    minname = eq_def[0].id
+    rootnames = {"optimizeResult.root": "root"}
+    for nm, ds in defs.items():
+        if len(ds) == 1 and src_of(ds[0], src).endswith(".root"):
+            rootnames[nm] = "root"
+            rootnames[src_of(ds[0], src)] = "root"
+    ex_v = Expr(src, dict({"self.errTol": "errTol"}, **rootnames))
+    velerr = ex_v.num(defs[minname][0])
+    # off-equilibrium branch: max(minError, ...) -- bounded below by minError
     off_ok = all(isinstance(d, ast.Call) and src_of(d.func, src) == "max" and any(
-        isinstance(a, ast.Name) and a.id == "wallVelocityMinError" for a in d.args)
+        isinstance(a, ast.Name) and a.id == minname for a in d.args)
         for d in off)
     # pressAbsErrTol
     body = strip_doc(fn.body)
@@ -457,8 +481,21 @@ def solvewall_facts(src):
                      default=None)
     atol0 = Expr(src, {}).num(stores[0][1].value)
     atol0_first = first_eval is not None and stores[0][0] < first_eval
-    atol2 = Expr(src, {"self.errTol": "errTol", "self.pressRelErrTol": "rel",
-                       "pressureMin": "pMin", "pressureMax": "pMax"}).num(stores[1][1].value)
+    snaps = w.atol_stores.get(stores[1][1].lineno, [])
+    if not snaps:
+        raise TranslateError("second pressAbsErrTol store is not on any path")
+    aenv = {"self.errTol": "errTol", "self.pressRelErrTol": "rel"}
+    for n in ast.walk(stores[1][1].value):
+        if isinstance(n, ast.Name) and n.id not in ("np", "abs", "min", "max", "self"):
+            roles = {origin_of(env.get(n.id)) for _, env in snaps}
+            if roles == {("AtMin", 0)}:
+                aenv[n.id] = "pMin"
+            elif roles == {("AtMax", 0)}:
+                aenv[n.id] = "pMax"
+            else:
+                raise TranslateError("pressAbsErrTol depends on %s, which is not the "
+                                     "pressure at an end of the bracket" % n.id)
+    atol2 = Expr(src, aenv).num(stores[1][1].value)
     # the second store must come after the doubling loop and before the root finder
     idx_while = [i for i, s in enumerate(body) if isinstance(s, ast.While)]
     idx_root = [i for i, s in enumerate(body)
@@ -491,7 +528,7 @@ def solvewall_facts(src):
                 and ret_names[lastret.value.slice.value] == "pressure")
     # no wallPressure call between the guards and the final return other than the final one
     ncalls = sum(1 for n in ast.walk(wdef) if is_self_call(n, "wallPressure"))
-    genv = {wparam: "x", "wallVelocityMin": "vmin", "wallVelocityMax": "vmax"}
+    genv = {wparam: "x", w.p_lo: "vmin", w.p_hi: "vmax"}
     gmin = Expr(src, genv).boolean(guards[0][0])
     gmax = Expr(src, genv).boolean(guards[1][0])
     return dict(ret_names=ret_names, table=table, exits=exits_seen, xtol=xtol,
@@ -682,8 +719,9 @@ def generate(eom_src, mgr_src):
     L.append("Definition gen_guardMin (x vmin vmax : Q) : bool := %s." % f["gmin"])
     L.append("Definition gen_guardMax (x vmin vmax : Q) : bool := %s." % f["gmax"])
     L.append("Definition gen_rootfinder_method : string := \"%s\"." % f["method"])
-    L.append("Definition gen_rootfinder_bracket : list string := %s."
-             % coq_str_list(f["bracket"]))
+    L.append("(* positions, among solveWall's parameters, of the two ends of the bracket *)")
+    L.append("Definition gen_rootfinder_bracket : list nat := [%s]."
+             % "; ".join("%d%%nat" % b for b in f["bracket"]))
     L.append("Definition gen_rootfinder_extra_keywords : list string := %s."
              % coq_str_list(f["extra_kw"]))
     L.append("Definition gen_wrapper_calls_wallPressure_once_at_its_argument : bool := %s."
@@ -737,6 +775,18 @@ def generate(eom_src, mgr_src):
     for k in ("solveWall", "solveWallDetonation"):
         L.append("Definition gen_%s_uses_fresh_setup : bool := %s."
                  % (k, coq_bool(m["recv_" + k] and m["ret_" + k])))
+    L.append("")
+    L.append("(** any configuration, with the literals and expressions of solveWall taken from "
+             "the source\n    (atolFactor and endTol are the model's; Props/C01.v proves that "
+             "the generated tolerance\n    formula and wrapper guards coincide with them) *)")
+    L.append("Definition atolFactor : Q := 1 # 400.")
+    L.append("Definition endTol : Q := 1 # 10000000000.")
+    L.append("Definition cfg (b : config) : config :=\n"
+             "  mkConfig (c_errTol b) (c_pressRelErrTol b) (c_vJ b) (c_vLTE b)\n"
+             "           (c_TMinLow b) (c_TMaxLow b) (c_TMinHigh b) (c_TMaxHigh b)\n"
+             "           (c_widthLo b) (c_widthHi b) (c_offLo b) (c_offHi b)\n"
+             "           gen_atol0 atolFactor endTol (gen_xtol (c_errTol b)) "
+             "(gen_velErr (c_errTol b)).")
     return "\n".join(L) + "\n", dict(facts=f, manager=m)
 
 
